@@ -199,6 +199,8 @@ def b_any(ex, g):
 
 
 def b_sum(ex, g, start=0):
+    if isinstance(g, Obj) and g.cls == 'symlist':
+        return fresh_int('sum')          # the sum of a list of symbolic length: an unconstrained number
     def conc(xs):
         acc = start
         for x in xs:
